@@ -39,6 +39,7 @@ enum Ev {
     Spawn(usize),
     End(usize, PayOutcome),
     Fault(u64),
+    Advance(u64),
 }
 
 pub struct P {
@@ -55,6 +56,7 @@ pub struct P {
     events: Vec<Ev>,
     faults_injected: u32,
     part_failure_seen_while_pending: bool,
+    advances: u32,
     err: Option<String>,
 }
 
@@ -236,6 +238,16 @@ impl P {
                 }
             }
         });
+        // after an injected fault the wrapper may be sleeping before a retry: let (virtual) time pass
+        if out.is_empty() && self.faults_injected > 0 && self.advances < 4 {
+            out.push((
+                Ev::Advance(1000),
+                Choice {
+                    label: "Advance(1000ms)".into(),
+                    cost: 0,
+                },
+            ));
+        }
         out
     }
 
@@ -309,6 +321,7 @@ impl Model for P {
             events: Vec::new(),
             faults_injected: 0,
             part_failure_seen_while_pending: false,
+            advances: 0,
             err: None,
         };
         p.quiesce();
@@ -338,6 +351,12 @@ impl Model for P {
             Ev::Resolve(i, st) => {
                 self.sim.with(|s| s.resolve_part(*i, *st));
             }
+            Ev::Advance(ms) => {
+                self.advances += 1;
+                self.view.add(&("adv", ms));
+                let d = Duration::from_millis(*ms);
+                self.rt.block_on(async move { tokio::time::advance(d).await });
+            }
             Ev::Spawn(c) => {
                 self.sim.with(|s| s.spawn_part(*c));
             }
@@ -355,6 +374,7 @@ impl Model for P {
         self.sim.with(|s| s.digest(&mut h));
         h.add(&self.result.is_some());
         h.add(&self.faults_injected);
+        h.add(&self.advances);
         h.value()
     }
 
